@@ -79,6 +79,11 @@ func c05StageRun(c *Ctx, idx int, rng *rand.Rand, sc *c05Scenario, dir string) {
 			AgeH: []float64{0.2, 3, 13, 26, 200}[rng.Intn(5)] + rng.Float64()*11, Held: rng.Intn(4) == 0, Rename: rng.Intn(5) == 0}
 		cf.data = randBytes(rng, cf.Size)
 		cf.hash = md5hex(cf.data)
+		if rng.Intn(5) == 0 {
+			// the sender's clock is a few seconds ahead of the receiver's (or the file has a
+			// near-future modification time): the delivery is logged BEFORE the file's time
+			cf.AgeH = -float64(1+rng.Intn(50)) / 3600
+		}
 		cf.ftime = time.Now().Add(-time.Duration(cf.AgeH * float64(time.Hour)))
 		cuts := map[int64]bool{0: true, cf.Size: true}
 		for k := 0; k < cf.Parts-1; k++ {
@@ -218,6 +223,16 @@ func c05StageRun(c *Ctx, idx int, rng *rand.Rand, sc *c05Scenario, dir string) {
 	for _, cf := range sc.Files {
 		if cf.Held {
 			held = true
+		}
+	}
+	for _, cf := range sc.Files {
+		if cf.AgeH < 0 {
+			// let the receiver's clock pass the file's (sender-side) time before anything
+			// is sent again.  (Under the virtual clock two successive time.Now() calls can
+			// return the same instant, which a real clock never does; the receiver's
+			// "read the log from A to B" is a no-op for A == B.)
+			time.Sleep(2 * time.Minute)
+			break
 		}
 	}
 	// ---- retransmissions after completion
